@@ -202,8 +202,12 @@ class Expected:
     refresh: bool
     direction: torch.Tensor  # P before decay / momentum (for norm clauses)
     graft_direction: torch.Tensor | None
+    shampoo_direction: torch.Tensor | None  # un-rescaled preconditioned direction (None during grafted warm-up)
     use_basis: bool = False
-    rotated_grad: torch.Tensor | None = None
+    slack: float = 0.0  # relative perturbation from bias-correction scalars carried in single precision
+    asym: float = 0.0  # relative difference of the direction under the two contraction conventions of a stored root
+    amplification: float = 1.0  # running-error amplification of the contraction that produced the direction (>= 1)
+    scales: dict = field(default_factory=dict)  # magnitude of the operands of each recurrence (cancellation guard)
 
 
 def graft_direction(hp: HP, Gbar: torch.Tensor, V_new: torch.Tensor | None, t: int) -> torch.Tensor:
@@ -217,6 +221,19 @@ def preconditioned_dims(hp: HP, order: int) -> list[int]:
     return [d for d in range(order) if d not in hp.ignored_dims]
 
 
+def _amax(t: torch.Tensor | None) -> float:
+    if t is None or t.numel() == 0:
+        return 0.0
+    v = float(t.abs().max())
+    return v if math.isfinite(v) else 0.0
+
+
+def _bc_slack(bc: float, t: int = 1) -> float:
+    """Relative perturbation of a bias-correction term 1 - beta^t that is carried in single precision: beta is rounded
+    to float32 before the power (relative error t * 2^-24 in beta^t) and the difference is rounded again."""
+    return 0.0 if bc == 1.0 else (t + 2) * 2.0**-22 / abs(bc)
+
+
 def expected_step(
     hp: HP, t: int, W: torch.Tensor, G_in: torch.Tensor, pre: BlockState, post_inv: list[torch.Tensor]
 ) -> Expected:
@@ -224,24 +241,35 @@ def expected_step(
 
     W, G_in: float64 block of the parameter / gradient. pre: state before the step.
     post_inv: the inverse roots / eigenbases actually stored after the step (validated separately; DESIGN 3.1).
+
+    Alongside every quantity its running-error magnitude (the same expression over absolute values) is carried, so
+    that comparisons can be made relative to the operands and never to a cancelled result.
     """
     order = W.dim()
     pdims = preconditioned_dims(hp, order)
+    scales: dict[str, Any] = {}
+    slack = 0.0
     G = G_in
+    Gabs = G_in.abs()
     if hp.weight_decay != 0.0 and not hp.decoupled:
         G = G + hp.weight_decay * W
+        Gabs = Gabs + hp.weight_decay * W.abs()
 
     # Kronecker factors
     factors = []
+    fscale = []
     for L, k in zip(pre.factors, pdims):
         gram = mode_gram(G, k)
         factors.append(hp.beta2 * L + (1.0 - hp.beta2) * gram if hp.beta2 != 1.0 else L + gram)
+        fscale.append(max(_amax(L), _amax(mode_gram(Gabs, k))))
+    scales["factors"] = fscale
 
     # grafting accumulator
     V_new = None
     if hp.grafting is not None and hp.grafting["type"] != "sgd":
         b2g = hp.graft_beta2()
         V_new = pre.adagrad + G * G if b2g == 1.0 else b2g * pre.adagrad + (1.0 - b2g) * G * G
+        scales["adagrad"] = max(_amax(pre.adagrad), _amax(Gabs) ** 2)
 
     refresh = hp.is_refresh(t)
     bc2 = hp.bc2(t)
@@ -249,61 +277,115 @@ def expected_step(
     # SOAP: corrected eigenvalues in the basis valid after this step's refresh
     corrected = None
     use_basis = False
-    Grot = None
     if hp.kind == "soap":
         use_basis = len(post_inv) > 0 and bool(post_inv[0].any())
         Grot = G
+        Grot_abs = Gabs
         if use_basis:
             for Q, k in zip(post_inv, pdims):
                 Grot = mode_apply(Grot, Q.T, k)
+                Grot_abs = mode_apply(Grot_abs, Q.T.abs(), k)
         sq = Grot * Grot
         corrected = hp.beta2 * pre.corrected + (1.0 - hp.beta2) * sq if hp.beta2 != 1.0 else pre.corrected + sq
+        scales["corrected"] = max(_amax(pre.corrected), _amax(Grot_abs) ** 2)
 
     # filtered gradient
     filtered = None
     if hp.beta1 != 0.0:
         filtered = hp.beta1 * pre.filtered + (1.0 - hp.beta1) * G
         Gbar = hp.beta3 * pre.filtered + (1.0 - hp.beta3) * G
+        Gbar_abs = hp.beta3 * pre.filtered.abs() + (1.0 - hp.beta3) * Gabs
+        scales["filtered"] = max(_amax(pre.filtered), _amax(Gabs))
         if hp.bias_correction:
-            Gbar = Gbar / (1.0 - hp.beta3 * hp.beta1 ** (t - 1))
+            bc1 = 1.0 - hp.beta3 * hp.beta1 ** (t - 1)
+            Gbar = Gbar / bc1
+            Gbar_abs = Gbar_abs / bc1
+            slack += _bc_slack(bc1, t)
     else:
         Gbar = G
+        Gbar_abs = Gabs
 
     # direction
-    gdir = graft_direction(hp, Gbar, V_new, t) if hp.grafting is not None else None
+    amplification = 1.0
+    asym = 0.0
+    shampoo_dir = None
+    gdir = None
+    gdir_abs = None
+    if hp.grafting is not None:
+        gdir = graft_direction(hp, Gbar, V_new, t)
+        gdir_abs = graft_direction(hp, Gbar_abs, V_new, t)
+        slack += 0.5 * _bc_slack(hp.graft_bc2(t), t) if hp.grafting["type"] != "sgd" else 0.0
     if t < hp.start and hp.grafting is not None:
         P = gdir
+        Pabs = gdir_abs
     else:
         if hp.kind == "shampoo":
+            # The stored roots are symmetric only up to the round-off of the routine that produced them; the
+            # documented product L^-1/r G R^-1/r does not say which index is contracted, so both conventions are
+            # evaluated and their difference is returned as slack (asym).
             P = Gbar
+            Palt = Gbar
+            Pabs = Gbar_abs
             for X, k in zip(post_inv, pdims):
-                P = mode_apply(P, X, k)
+                P = mode_apply(P, X.T, k)
+                Palt = mode_apply(Palt, X, k)
+                Pabs = mode_apply(Pabs, X.abs(), k)
+            if _amax(P) > 0:
+                asym = _amax(P - Palt) / _amax(P)
         else:
             root = hp.root_for_order(order)
             R = Gbar
+            Rabs = Gbar_abs
             if use_basis:
                 for Q, k in zip(post_inv, pdims):
                     R = mode_apply(R, Q.T, k)
-            R = R / (corrected / bc2 + hp.epsilon).pow(1.0 / root)
+                    Rabs = mode_apply(Rabs, Q.T.abs(), k)
+            den = (corrected / bc2 + hp.epsilon).pow(1.0 / root)
+            slack += _bc_slack(bc2, t) / root
+            R = R / den
+            Rabs = Rabs / den
             if use_basis:
                 for Q, k in zip(post_inv, pdims):
                     R = mode_apply(R, Q, k)
+                    Rabs = mode_apply(Rabs, Q.abs(), k)
             P = R
+            Pabs = Rabs
+        shampoo_dir = P
         if hp.grafting is not None:
-            P = P * (torch.linalg.vector_norm(gdir) / (torch.linalg.vector_norm(P) + 1e-16))
+            # P <- P * |gdir| / (|P| + 1e-16): the rescaled direction inherits the relative error of P and of gdir
+            pn = float(torch.linalg.vector_norm(P))
+            pan = float(torch.linalg.vector_norm(Pabs))
+            gn = float(torch.linalg.vector_norm(gdir))
+            gan = float(torch.linalg.vector_norm(gdir_abs))
+            factor = gn / (pn + 1e-16)
+            P = P * factor
+            rel = (pan / pn if pn > 0 else 1.0) + (gan / gn if gn > 0 else 1.0)
+            Pabs = Pabs * factor + P.abs() * rel
+    pa, pm = _amax(Pabs), _amax(P)
+    amplification = max(1.0, pa / pm) if pm > 0.0 else (1.0 if pa == 0.0 else float("inf"))
     direction = P
 
     if hp.weight_decay != 0.0 and hp.decoupled:
         P = P + hp.weight_decay * W
+        Pabs = Pabs + hp.weight_decay * W.abs()
 
     momentum = None
-    if hp.momentum_at_construction != 0.0 and pre.momentum is not None:
+    if pre.momentum is not None:
         momentum = pre.momentum
     if hp.momentum != 0.0:
         momentum = hp.momentum * pre.momentum + (1.0 - hp.dampening) * P
-        P = (1.0 - hp.dampening) * P + hp.momentum * momentum if hp.nesterov else momentum
+        Mabs = hp.momentum * pre.momentum.abs() + (1.0 - hp.dampening) * Pabs
+        scales["momentum"] = _amax(Mabs)
+        if hp.nesterov:
+            P = (1.0 - hp.dampening) * P + hp.momentum * momentum
+            Pabs = (1.0 - hp.dampening) * Pabs + hp.momentum * Mabs
+        else:
+            P = momentum
+            Pabs = Mabs
 
-    W_new = W - spec.f32(hp.lr) * P
+    lr = spec.f32(hp.lr)
+    W_new = W - lr * P
+    scales["W"] = _amax(W.abs() + lr * Pabs)
     return Expected(
         W=W_new,
         factors=factors,
@@ -314,8 +396,12 @@ def expected_step(
         refresh=refresh,
         direction=direction,
         graft_direction=gdir,
+        shampoo_direction=shampoo_dir,
         use_basis=use_basis,
-        rotated_grad=Grot,
+        amplification=amplification,
+        asym=asym,
+        slack=slack,
+        scales=scales,
     )
 
 
